@@ -345,6 +345,9 @@ def job(kind, *args):
 
 
 def jobs(tier, seed):
+    global CBFREQ
+    if tier != "quick":
+        CBFREQ = np.array([0.1, 0.5, 2.9, 4.0, 9.1, 23.0, 60.0])
     out = [H.Job("cgmass", job, "cgmass", weight=10), H.Job("reorder-convert", job, "reorder", weight=10)]
     for name in cbmodels():
         out.append(H.Job("cbtf-%s" % name, job, "cbtf", name, weight=20))
